@@ -33,6 +33,26 @@ def _plain_function(x=0):
     return x
 
 
+@typing.runtime_checkable
+class Runner(typing.Protocol):
+    def run(self) -> str: ...
+
+
+class RunnerClass:
+    """conforms to Runner through its class"""
+
+    def run(self) -> str:
+        return "class"
+
+
+class Plugin:
+    """a plain holder: behaviour is attached per instance, so two instances of this one class differ in conformance"""
+
+    def __init__(self, run=None):
+        if run is not None:
+            self.run = run
+
+
 # annotations validated by a plain isinstance check, and one value of each
 PLAIN = {
     "complex": (complex, 1j), "range": (range, range(3)), "uuid": (uuid.UUID, uuid.UUID(int=7)),
@@ -42,7 +62,8 @@ PLAIN = {
     "pattern": (re.Pattern, re.compile("a+")),
 }
 STR = {1: "a", 2: "bc", 0: ""}
-KIND_ORDER = ["none", "bool", "int", "float", "str", "bytes", "missing", "enumv", "state", "state2", "list", "tuple",
+KIND_ORDER = ["none", "bool", "int", "float", "str", "bytes", "missing", "enumv", "state", "state2", "pclass", "pinst",
+              "phollow", "list", "tuple",
               "set", "fset", "dict", "pair", *PLAIN, "func", "cls", "other"]
 
 
@@ -72,6 +93,8 @@ def ann_to_py(a):
         return Missing
     if k == "enum":
         return E
+    if k == "proto":
+        return Runner
     if k == "state":
         return Inner
     if k == "lit":
@@ -128,6 +151,12 @@ def val_to_py(v):
         return Inner
     if k == "enumv":
         return E.one
+    if k == "pclass":
+        return RunnerClass()
+    if k == "pinst":
+        return Plugin(run=lambda: "instance")
+    if k == "phollow":
+        return Plugin()
     if k == "state":
         return Inner(v=p)
     if k == "state2":
@@ -175,6 +204,10 @@ def py_to_val(o):
         return V("bytes", 1)
     if isinstance(o, E):
         return V("enumv", o.value)
+    if type(o) is RunnerClass:
+        return V("pclass", 1)
+    if type(o) is Plugin:
+        return V("pinst" if "run" in vars(o) else "phollow", 1)
     if type(o) is Inner2:
         return V("state2", o.v)
     if type(o) is Inner:
